@@ -1,0 +1,14 @@
+//go:build verif
+
+// Contracts for package policy, checked by /verif/govc (comment-only; not part of any normal build).
+
+package policy
+
+// ---- C02: "the presentation definition configured for the scope": the local policy backend answers with the definitions
+// configured under EXACTLY the scope string it was asked for (the caller writes that same string into the access token and
+// its introspection), and with not-found for any other string - no tokenising, trimming or prefix matching ----
+//@ func (*LocalPDP).PresentationDefinitions
+//@   prop C02
+//@   ensures [only-a-configured-scope-has-definitions] isNilIface(result.1) ==> scope in b.mapping
+//@   ensures [an-unknown-scope-string-is-not-found] !(scope in b.mapping) ==> result.1 == ErrNotFound && result.0 == nil
+//@   call mapupdate #1 requires [copied-from-the-entry-of-exactly-this-scope] arg(0) == result && mapping == b.mapping[scope] && arg(1) == walletOwnerType && same(arg(2), policy)
